@@ -79,6 +79,19 @@ def make_pool(seed, n, scratch):
             jobs.append({"k": "compile", "text": broken, "path": os.path.join(root, lk), "lookup": lookup, "cls": "layout-lib-broken", "keep": i == 0})
             jobs[-3]["after"] = rnd.choice([ltext, broken])
             jobs[-3]["keep"] = i == 0
+    # two imported files define a macro of the same name: whichever wins, it has to be the same one in every process
+    root = os.path.join(scratch, f"clash{seed & 0xffff}")
+    os.makedirs(os.path.join(root, "lib"), exist_ok=True)
+    names = rnd.sample(["alpha", "beta", "gamma", "delta", "omega", "zeta", "a", "zz"], 3)
+    imps = ""
+    for nm in names:
+        with open(os.path.join(root, "lib", nm + ".exps"), "w", encoding="utf-8") as f:
+            f.write(f"macro same_name() {{\n    from_{nm}();\n}}\nmacro only_{nm}() {{\n    x_{nm}();\n}}\n")
+        imps += f'import "./lib/{nm}.exps";\n'
+    text = imps + "def 0 {\n    ~same_name();\n    " + " ".join(f"~only_{nm}();" for nm in names) + "\n    end;\n}\n"
+    with open(os.path.join(root, "main.exps"), "w", encoding="utf-8") as f:
+        f.write(text)
+    jobs.append({"k": "compile", "text": text, "path": os.path.join(root, "main.exps"), "lookup": [], "cls": "macro-name-clash", "keep": True, "hashseeds": 5})
     # deeply nested programs: whether they compile depends on the interpreter's recursion limit, which must not depend on history
     for depth in [rnd.choice([40, 90]), rnd.choice([150, 220])]:
         body = "a();"
